@@ -230,9 +230,9 @@ def _entry_tests(repo: Repo, fi: FuncInfo, x: str) -> Set[str]:
             isinstance(n, ast.Compare)
             and len(n.ops) == 1
             and isinstance(n.ops[0], (ast.Is, ast.Eq))
-            and src(n.comparators[0]) == x
+            and x in (src(n.comparators[0]), src(n.left))
         ):
-            l = n.left
+            l = n.left if src(n.comparators[0]) == x else n.comparators[0]
             p = attr_path(l)
             if p and p[-1] == "entry_point":
                 out.add("entry_point")
